@@ -350,6 +350,11 @@ func (vc *VC) binop(op token.Token, x, y Val, rt types.Type, fr *Frame, pos toke
 		return vc.freshVal("binop", rt, Heap{})
 	}
 	full := maskOfType(k)
+	// largest value whose bit pattern is also its mathematical value: masks of signed operands stay below the sign bit
+	posFull := full
+	if k.signed {
+		posFull = new(big.Int).Sub(pow2(k.bits-1), big.NewInt(1))
+	}
 	res := Val{Typ: rt}
 	xc, xIsC := constOf(x)
 	yc, yIsC := constOf(y)
@@ -364,7 +369,7 @@ func (vc *VC) binop(op token.Token, x, y Val, rt types.Type, fr *Frame, pos toke
 	}
 	switch op {
 	case token.ADD:
-		if x.Mask != nil && y.Mask != nil && new(big.Int).And(x.Mask, y.Mask).Sign() == 0 && !k.signed {
+		if x.Mask != nil && y.Mask != nil && new(big.Int).And(x.Mask, y.Mask).Sign() == 0 && new(big.Int).Or(x.Mask, y.Mask).Cmp(posFull) <= 0 {
 			res.T = sApp("+", x.T, y.T)
 			res.Mask = new(big.Int).Or(x.Mask, y.Mask)
 			return res
@@ -443,7 +448,7 @@ func (vc *VC) binop(op token.Token, x, y Val, rt types.Type, fr *Frame, pos toke
 		res.T = n
 		return res
 	case token.OR, token.XOR:
-		if x.Mask != nil && y.Mask != nil && new(big.Int).And(x.Mask, y.Mask).Sign() == 0 && !k.signed {
+		if x.Mask != nil && y.Mask != nil && new(big.Int).And(x.Mask, y.Mask).Sign() == 0 && new(big.Int).Or(x.Mask, y.Mask).Cmp(posFull) <= 0 {
 			res.T = sApp("+", x.T, y.T)
 			res.Mask = new(big.Int).Or(x.Mask, y.Mask)
 			res.Dig = mergeDigits(x.Dig, y.Dig)
@@ -497,9 +502,9 @@ func (vc *VC) binop(op token.Token, x, y Val, rt types.Type, fr *Frame, pos toke
 			if s >= k.bits {
 				return Val{T: "0", Typ: rt, Mask: big.NewInt(0)}
 			}
-			if x.Mask != nil && !k.signed {
+			if x.Mask != nil {
 				nm := new(big.Int).Lsh(x.Mask, uint(s))
-				if nm.Cmp(full) <= 0 {
+				if nm.Cmp(posFull) <= 0 {
 					res.T = sApp("*", x.T, pow2s(s))
 					res.Mask = nm
 					if s%8 == 0 && x.Dig != nil {
